@@ -277,6 +277,14 @@ def C19(tier, seed):
     return chk
 
 
+def C18(tier, seed):
+    chk = Check('C18', tier, seed)
+    be = [0, 3] + ([4] if tier == 'thorough' else [])
+    oracle_units(chk, ['K'], be, 'C18', proj=STD, opts={'defines': ['VF_KLEENE_ON 1']}, bfs_depth=5, timeout=120, unwind=8, strats=['nk', 'nkG', 'pk'], cbmc_extra=('--unwindset', 'strcmp.0:48'))
+    chk.assumptions.append('C18: the payload seen by Kleene behaviours is read back through any_cast on the dynamic type reported by any::type(); typeinfo name comparison uses CBMC strcmp model')
+    return chk
+
+
 BP_TYPES = {0: 'Triv<1> (5 bytes)', 1: 'Triv<44>', 2: 'Triv<52> (56 bytes: fills the inline buffer)', 3: 'Triv<53> (60 bytes: heap)',
             4: 'TrivA<8,16> (alignment 16: heap)', 5: 'TrivA<40,64> (alignment 64: heap)', 6: 'Triv<196> (200 bytes: heap)',
             7: 'NonTriv inline (user copy/move/dtor, self pointer)', 8: 'NonTriv 100 bytes (heap)', 9: 'ThrowMove (move not noexcept: heap)'}
@@ -309,4 +317,4 @@ def C20(tier, seed):
     return chk
 
 
-PROPS = {f.__name__: f for f in (C01, C02, C03, C04, C05, C19, C06, C07, C08, C09, C10, C11, C13, C17, C20)}
+PROPS = {f.__name__: f for f in (C01, C02, C03, C04, C05, C18, C19, C06, C07, C08, C09, C10, C11, C13, C17, C20)}
